@@ -872,8 +872,7 @@ class MyPyAstVisitor:
                     # analyzed arguments have the complete type information
                     if len(unanalyzed_type.args) >= 2:
                         attribute_type.args = unanalyzed_type.args
-                else:  # pragma: no cover
-                    raise AttributeError("Could not get argument information for attribute.")
+                # Else the attribute was declared somewhere else, e.g. in an "if" block, and is only assigned here
 
         # Ignore types that are special mypy any types. The Any type "from_unimported_type" could appear for aliase
         if (
